@@ -62,7 +62,9 @@ func main() {
 			"IgnoreInconsistency at every state that holds an inconsistency, and with a withheld child history (with and without IgnoreMissingChildren), " +
 			"ChildFilter on pre-annotated parents and IgnoreInconsistency on consistent histories at every state of depth < tier depth. A state is non-trivial when annotation must discriminate: some child has a " +
 			"later version between parent versions, two parent versions see different versions of one child, or an inconsistency is present; " +
-			"fingerprint = (space, op sequence)")
+			"fingerprint = (space, op sequence). Family window (props/c11/window.go): way versions stamped inside the skew of another upload - 5 slots 5 min apart, " +
+			"each empty or holding a version of node 1 / node 2 / the way in the way's or a foreign changeset, <= 4 events, 1-3 way versions, default threshold / 1 min / IgnoreInconsistency, way [1 2] and [1 2 1]; " +
+			"judged by an interval oracle (success, carried version between the version current at the way's timestamp and the one current a threshold later, updates newer / ascending / not beyond the next way version, end state of ApplyUpdatesUpTo)")
 		r.Assume("the ground truth is the simulator verif/gen/histsim (last version written by an upload committed at or before t), independent of /repo")
 		r.Assume("pre-commit regime domain restriction (ground truth must be observable from timestamps): uploads are 2 h (> 2 x threshold) apart, or, in the " +
 			"spaces that say so, 10 min apart with a same-upload skew of 1 min (timestamps still ascend with versions); same-second uploads write one element " +
@@ -74,6 +76,16 @@ func main() {
 		r.Assume("osm.Way/Relation.ApplyUpdatesUpTo is part of the property (time-travel clause), not of the trusted base")
 
 		if r.ReplayPath != "" {
+			var probe struct {
+				Slots []int `json:"slots"`
+			}
+			r.LoadReplay(&probe)
+			if len(probe.Slots) > 0 {
+				var wc windowCase
+				r.LoadReplay(&wc)
+				checkWindow(r, wc)
+				return
+			}
 			var c Case
 			r.LoadReplay(&c)
 			replay(r, c)
@@ -100,6 +112,9 @@ func main() {
 			r.Set("states/"+sp.label(), st)
 			total += st
 			transitions += tr
+		}
+		if *onlySpace == "" && !*countOnly {
+			windowFamily(r)
 		}
 		r.Set("states", total)
 		r.Set("transitions", transitions)
